@@ -93,6 +93,18 @@ pub fn apply_mut(b: &[u8], m: &J) -> Vec<u8> {
                 }
             }
         }
+        "shortinner" => {
+            // a canonical wrapper whose nested message field holds only the first n bytes of the nested message
+            let n = m["n"].as_u64().unwrap() as usize;
+            let s = u32::from_be_bytes([b[92], b[93], b[94], b[95]]) as usize + 32; // start of the nested bytes
+            let inner: Vec<u8> = b[s..].iter().cloned().take(n).collect();
+            v.truncate(s - 32);
+            let mut lenw = [0u8; 32];
+            lenw[28..].copy_from_slice(&(inner.len() as u32).to_be_bytes());
+            v.extend_from_slice(&lenw);
+            v.extend_from_slice(&inner);
+            v.extend(std::iter::repeat(0u8).take((32 - inner.len() % 32) % 32));
+        }
         k => panic!("mutation kind {k}"),
     }
     v
